@@ -227,7 +227,8 @@ def mkStrEnc (encoding : String) (byteOrder : Option String) (fixed : Option Int
         if (encoding.splitOn "LE").length > 1 then pure (some "leastSignificantByteFirst")
         else if (encoding.splitOn "BE").length > 1 then pure (some "mostSignificantByteFirst")
         else throw Err.value
-      | some _ => pure none                    -- the attribute is never stored in this branch
+      | some b => if !(b == "leastSignificantByteFirst" || b == "mostSignificantByteFirst")
+                  then throw Err.value else pure (some b)
     else
       match byteOrder with
       | some b => if b != "" && !(b == "leastSignificantByteFirst" || b == "mostSignificantByteFirst")
@@ -243,7 +244,9 @@ def mkStrEnc (encoding : String) (byteOrder : Option String) (fixed : Option Int
       match hexToBytes (termHex.getD "") with
       | none => throw Err.value
       | some bs =>
-        match decodeText encoding bs with
+        let codec := if encoding == "UTF-16" || encoding == "UTF-32"
+          then encoding ++ (if bo == some "leastSignificantByteFirst" then "LE" else "BE") else encoding
+        match decodeText codec bs with
         | some s => if s.length != 1 then throw Err.value else pure (some bs)
         | none => throw Err.value
     else pure none
@@ -380,7 +383,7 @@ def loadParameterType (ens : Option String) (x : XmlNode) : LoadM LPType := do
       (match offset with | some o => [{ coef := o, exp := 0 }] | none => []) ++
       (match scale with
        | some s => [{ coef := s, exp := 1 }]
-       | none => match offset with | some _ => [{ coef := 1, exp := 1 }] | none => [])
+       | none => match offset with | some _ => [{ coef := 1, exp := 1, isInt := true }] | none => [])
     let enc ← match enc, coeffs with
       | e, [] => pure e
       | .num ne, cs => pure (Encoding.num { ne with cals := { ne.cals with default := some (.poly cs) } })
